@@ -42,3 +42,10 @@ package midicat
 //@ loop 0 invariant len(out) == 0 || fresh(out)
 //@ loop 0 invariant len(deltaBf) == 0 || fresh(deltaBf)
 //@ loop 0 decreases rd.sn - rd.spos
+
+// ReadAndConvert: one record per call, made of one line only
+//@ func ReadAndConvert
+//@ requires rd != nil && 0 <= rd.spos && rd.spos <= rd.sn
+//@ modifies rd.spos, rd.sfault
+//@ ensures [P:C19] err == nil ==> (rd.spos > old(rd.spos) && rd.sdata[rd.spos - 1] == 0x0A && forall i int :: old(rd.spos) <= i && i < rd.spos - 1 ==> rd.sdata[i] != 0x0A)
+//@ ensures [H] old(rd.spos) <= rd.spos && rd.spos <= rd.sn
